@@ -34,6 +34,12 @@ claimed = {
    note="Assumed (listed in the evidence): referencedTags returns exactly the distinct names its receiver's definition references; event, saveState, makeTagInfo, startTaggingJobIfNeeded, detachConverterFromTag, tagReferencesTransitively do not touch the tag table or the referencedBy sets (trusted contracts, bodies not verified); a tag object's features are never written after creation; the new tag object passed to a handler is not yet in the table; region assumptions of the UpdateTag regions (graph well-formed where the region starts - established by the other handlers); single-goroutine confinement of the manager state. Converter attach/detach, mark updates and the uncertainty walk are not under contract.",
    tech="contract-based deductive verification: handler-preserves-invariant contracts over a symbolic heap (own VC generator over go/ssa + z3/cvc5); bounded model-based stand-in for the API",
    ref="DESIGN.md section 4 (C11)"),
+ "C06": dict(
+   cat="other",
+   text="Sequential kernel only; the property's quantifier over interleavings of job completions with API calls is NOT decided (no schedule model in this family). PROVED (deductive, for every tag table and every bit): (1) the per-tag invalidation rule of invalidateTags at the point where the updated tag object is stored - sub-query features make every stream undecided; otherwise the undecided set keeps its members and gains the added and the reset streams, and the updated streams too when the definition uses payload or time filters (feature bits as bit-vectors); definition and match set are carried over; (2) the completion handler of a tagging job re-applies invalidateTags whenever any of the three 'arrived during the job' masks is non-empty and the result is published (ghost call log). BOUNDED (stand-in, not counted as proved): searches with tag filters over partly undecided tags agree with reading decided streams from the match set and undecided ones from the definition (tag-search stand-in).",
+   note="Assumed: LongBitmask.Copy/Or/IsZero contracts at set level (proved in word form under C17; the bridge is an assumed extern contract); converter Name is pure; single-goroutine confinement. Not under contract: inheritTagUncertainty (its termination needs acyclicity, see C11), import/converter completion handlers, mark updates, the prefetch of tags for views. Known defect documented but without an obligation: a tagging job that completes after a referenced tag was edited publishes a decided, stale dependent tag (DESIGN 7, F-C06-1).",
+   tech="contract-based deductive verification: rule-site assertions and ghost call logs (own VC generator over go/ssa + z3/cvc5); bounded differential stand-in for tag searches",
+   ref="DESIGN.md section 4 (C06)"),
  "C10": dict(
    text="Deductive proof of the sequential kernel of a view: (1) the per-stream callback of View.AllStreams invokes the handler for a stored version exactly when no newer index file of the view contains that stream id (loop invariant + ghost log of handler calls), so every visible id is enumerated once, in its newest version; (2) View.Stream returns the version from the newest index containing the id, or nothing if none contains it; (3) replacing a merged run keeps every index before and after the run in order (including files appended while the merge ran); (4) lock/release change nothing but the reference-count table. Completeness with respect to 'reported processed', stability of a view while other jobs run and the hand-off of references across goroutines are not function-contract properties and are not decided.",
    note="Assumed: the index package's readers (StreamIDs, StreamByID, Stream.ID) relate to the abstract predicate contains(index, id) as stated in their assumed contracts; single-goroutine confinement of manager state (C20's subject); Close/Remove do not touch manager state; run-time checks in View.Stream and the merge completion closure are assumed to pass (nosafety).",
